@@ -122,6 +122,100 @@ def make_llc(peer, role='initiator', **options):
     return llc
 
 
+ITEM = {'CONNECT': 'CONNECT', 'CC': 'CC', 'DM': 'DM', 'I': 'I', 'DISC': 'DISC'}
+
+
+def snapshot(llc, o):
+    """the observable part of a socket (or of the service discovery object) in the vocabulary of the
+    LlcLife model: kind state bound intab rq sq rbuf sbuf slots acks"""
+    if isinstance(o, llcmod.ServiceDiscovery):
+        there = llc.sap[1] is o
+        return ('SDP', 'SHUTDOWN' if o.snl is None else 'ESTABLISHED', int(there), int(there), '-', len(o.sdreq), 1, 1, 0, 0)
+    kind = 'RAW' if isinstance(o, tco.RawAccessPoint) else 'LDL' if isinstance(o, tco.LogicalDataLink) else 'DLC'
+    addr = o.addr
+    sap = llc.sap[addr] if addr is not None else None
+    intab = int(isinstance(sap, llcmod.ServiceAccessPoint) and any(x is o for x in sap.sock_list))
+    rq = ','.join(ITEM.get(getattr(x, 'name', '?'), 'OTHER') for x in o.recv_queue) or '-'
+    slots = o.send_window_slots if kind == 'DLC' and o.send_win is not None else 0
+    return (kind, str(o.state), int(addr is not None), intab, rq, len(o.send_queue), o.recv_buf, o.send_buf, slots,
+            getattr(o, 'acks_recvd', 0))
+
+
+class Observer(object):
+    """records, per socket call, the lock-hold segments the calling thread executes (pre-state after the
+    outermost acquire / re-acquire, post-state before wait / final release) and what terminate() does"""
+
+    def __init__(self, sch, llc):
+        self.sch, self.llc = sch, llc
+        self.sd = llc.sap[1]
+        self.locks = {id(llc.lock): None}
+        self.cur = {}            # thread id -> record of the call in progress
+        self.records = []
+        self.link_segs = []      # segments of the link thread inside terminate()
+        self.in_term = False
+        self._link_open = None
+
+    def register(self, o):
+        self.locks[id(o.lock)] = o
+
+    def cond_name(self, o, c):
+        for n in ('recv_ready', 'send_ready', 'acks_ready', 'send_token', 'resp'):
+            if getattr(o, n, None) is c:
+                return n
+        return '?'
+
+    def begin(self, api, obj):
+        me = self.sch._me()
+        if me is None or obj is None:
+            return None
+        target = self.sd if obj == 'sd' else getattr(obj, '_tco', obj)
+        rec = {'api': api, 'obj': target, 'term_at_call': int(self.llc.sap[1] is None),
+               'at_call': snapshot(self.llc, target) if target is not None else None, 'segs': [], 'open': None, 'result': None}
+        self.cur[me.id] = rec
+        self.records.append(rec)
+        return rec
+
+    def end(self, rec, result):
+        me = self.sch._me()
+        if rec is not None:
+            rec['result'] = result
+            self.cur.pop(me.id, None)
+
+    def hook(self, me, op, obj, extra):
+        lock = getattr(obj, 'lock', obj)
+        if id(lock) not in self.locks:
+            return
+        owner = self.locks[id(lock)]            # a tco, or None for llc.lock
+        rec = self.cur.get(me.id)
+        if rec is not None and rec['obj'] is not None:
+            target = rec['obj']
+            mine = (owner is target) or (owner is None)      # the call's own socket lock, or llc.lock
+            if isinstance(target, llcmod.ServiceDiscovery):
+                mine = owner is None
+            if mine:
+                lk = 'llc' if owner is None else 'sock'
+                if op in ('acq', 'woken', 'timeout'):
+                    rec['open'] = {'lock': lk, 'pre': snapshot(self.llc, target), 'term': int(self.llc.sap[1] is None), 'nall': []}
+                elif op == 'notify' and rec['open'] is not None:
+                    rec['open']['nall'].append(self.cond_name(target if lk == 'sock' else self.sd, obj))
+                elif op in ('wait', 'rel') and rec['open'] is not None:
+                    sg = rec['open']
+                    sg['post'] = snapshot(self.llc, target)
+                    sg['end'] = ('wait', self.cond_name(target if lk == 'sock' else self.sd, obj)) if op == 'wait' else ('rel',)
+                    rec['segs'].append(sg)
+                    rec['open'] = None
+        elif self.in_term and owner is not None and me.name == 'link':
+            # the link thread closes a socket inside terminate()
+            if op == 'acq':
+                self._link_open = {'obj': owner, 'pre': snapshot(self.llc, owner), 'nall': []}
+            elif op == 'notify' and self._link_open is not None:
+                self._link_open['nall'].append(self.cond_name(owner, obj))
+            elif op == 'rel' and self._link_open is not None:
+                self._link_open['post'] = snapshot(self.llc, owner)
+                self.link_segs.append(self._link_open)
+                self._link_open = None
+
+
 class Ctx(object):
     """what a scenario uses to record the socket calls of its application threads"""
 
@@ -132,8 +226,26 @@ class Ctx(object):
         self.term_end = None
         self.run_result = None
         self.after_term = None      # scheduler Event set when the run loop has ended
+        self.obs = None
 
-    def call(self, api, fn):
+    @staticmethod
+    def infer_obj(api, fn):
+        """the socket a recorded call works on: the bound method's object, or the first Socket among
+        the closure cells / default arguments of the lambda; 'sd' for resolve"""
+        if api.endswith('resolve'):
+            return 'sd'
+        cands = [getattr(fn, '__self__', None)]
+        cands += [c.cell_contents for c in (getattr(fn, '__closure__', None) or ())]
+        cands += list(getattr(fn, '__defaults__', None) or ())
+        for c in cands:
+            if isinstance(c, nfc.llcp.Socket):
+                return c
+        return None
+
+    def call(self, api, fn, obj=None):
+        if obj is None and self.obs is not None:
+            obj = self.infer_obj(api, fn)
+        orec = self.obs.begin(api, obj) if self.obs is not None else None
         rec = {'api': api, 'thread': self.sch._me().name if self.sch._me() else 'main',
                'issued': self.sch.step, 'issued_after_term': self.term_end is not None,
                'issued_after_term_begin': self.term_begin is not None, 'result': None}
@@ -143,12 +255,14 @@ class Ctx(object):
             r = fn()
             rec['result'] = ('ret', _short(r))
         except nfc.llcp.Error as e:
-            rec['result'] = ('llcp', _errno.errorcode.get(e.errno, str(e.errno)))
+            rec['result'] = ('llcp', _errno.errorcode.get(e.errno, str(e.errno)), e.errno)
         except S.Abort:
             raise
         except Exception as e:  # noqa: the monitor decides
             rec['result'] = ('exc', type(e).__name__ + ': ' + str(e)[:80])
         rec['done'] = self.sch.step
+        if self.obs is not None:
+            self.obs.end(orec, rec['result'])
         self.sch.note('return', api, rec['result'][0])
         return rec['result']
 
@@ -164,7 +278,7 @@ def _short(r):
 
 
 def run_scenario(build, cause, end_at, chooser=None, role='initiator', peer_kw=None, link_first=False,
-                 post=None, max_steps=4000, llc_options=None):
+                 post=None, max_steps=4000, llc_options=None, observe=False):
     """build(llc, ctx) -> [(thread name, function)]: application threads (started in this order, before
     the link thread unless link_first).  post(llc, ctx) -> [(name, fn)]: threads started by the
     link thread after run() has ended (calls issued after termination).
@@ -176,15 +290,28 @@ def run_scenario(build, cause, end_at, chooser=None, role='initiator', peer_kw=N
         llc = make_llc(peer, role, **(llc_options or {}))
         ctx = Ctx(sch)
         ctx.peer = peer
+        saved_init = tco.TransmissionControlObject.__init__
+        if observe:
+            obs = ctx.obs = Observer(sch, llc)
+
+            def tco_init(self, *a, **kw):
+                saved_init(self, *a, **kw)
+                obs.register(self)
+            tco.TransmissionControlObject.__init__ = tco_init
+            sch.hook = obs.hook
         ctx.after_term = sch.threading.Event()
         real_terminate = llc.terminate
 
         def terminate(reason):
             ctx.term_begin = sch.step
             sch.note('term-begin', reason)
+            if ctx.obs is not None:
+                ctx.obs.in_term = True
             try:
                 return real_terminate(reason)
             finally:
+                if ctx.obs is not None:
+                    ctx.obs.in_term = False
                 ctx.term_end = sch.step
                 sch.note('term-end', reason)
 
@@ -218,7 +345,12 @@ def run_scenario(build, cause, end_at, chooser=None, role='initiator', peer_kw=N
                 sch.spawn(fn, name)
         if not link_first:
             sch.spawn(link, 'link')
-        blocked = sch.run()
+        try:
+            blocked = sch.run()
+        finally:
+            tco.TransmissionControlObject.__init__ = saved_init
+        out['records'] = ctx.obs.records if ctx.obs is not None else []
+        out['link_segs'] = ctx.obs.link_segs if ctx.obs is not None else []
         out['blocked'] = [sch.describe(b) for b in blocked]
         out['livelock'] = sch.livelock
         out['schedule'] = list(sch.schedule)
